@@ -7,6 +7,18 @@ BASELINE = json.load(open('/root/.vp/BASELINE.json'))['cmd'] if os.path.exists('
 
 CLAIMED = {
  # id: (level, engine, design_ref, technique, level text, level note)
+ 'C05': ('exploration', 'clisim', 'DESIGN.md §8 C05',
+         'deterministic simulation: seeded scheduler + scripted peer pushing notifications singly/grouped; exact routing and buffer-occupancy reference model over stamped events',
+         'Seeded search over push sequences (live/ended/unknown ids, close and method notifications, grouped into arrays in drawn ways), consumer paces, unsubscribe/drop points and task schedules; each stream is compared with an executable model that is advanced by the stamped events "push handed to the client" and "consumer took an item", so contents, order, end of stream, close reason and the number of unsubscribe requests on the wire are decided exactly for each explored run. Sampling, not enumeration.',
+         'A task poll is atomic (the occupancy model relies on it); scripted peer; in-memory transport.'),
+ 'C09': ('fault_enumeration', 'clisim', 'DESIGN.md §8 C09',
+         'deterministic simulation with fault injection: one transport fault or poison message per run, swept over every seam-event position of fault-free base runs and drawn randomly; seeded schedule search (incl. starvation of the shutdown watcher); cause oracle',
+         'For each base run the fault (9 kinds: send error, receive error, peer close, 6 poison messages) is placed at every seam event (tx / peer push / delivery); on top of that seeded search over 29 fault kinds, positions and schedules. Oracle: no library panic, no operation left pending, every failed operation and on_disconnect carry the injected cause and never the placeholder, streams end, is_connected false. Positions are enumerated per base run; schedules and base runs are sampled.',
+         'A task poll is atomic; one fault per run; overflow-checks on (as in a debug build); scripted peer.'),
+ 'C12': ('exploration', 'clisim', 'DESIGN.md §8 C12',
+         'deterministic simulation: seeded scheduler; scripted peer / harness HTTP backend replying with permuted, short, duplicated, foreign and mixed batch replies; positional oracle shared by both clients',
+         'Seeded search over batch sizes 1-6, several batches and calls in flight, both id kinds, reply shapes (permutation / subset / duplicate / foreign id / two batches mixed) for the async (WebSocket-style) client and the HttpClient; every returned entry must be attributable to a reply element with exactly that id, list length and counters must match the request. Sampling, not enumeration.',
+         'A task poll is atomic; HttpClient runs above a tower layer that stands in for the hyper connection pool.'),
  'C03': ('exploration', 'clisim', 'DESIGN.md §8 C03',
          'deterministic simulation: seeded task-gate scheduler + scripted adversarial peer, payload-nonce attribution oracle',
          'Seeded search over schedules of the real async client (front-end futures vs. send/read/shutdown tasks) and over answer orders/duplications of a scripted peer; every completion is attributed through unique nonces to the response carrying the id that request put on the wire. Sampling, not enumeration.',
